@@ -116,6 +116,13 @@ def _unreturn(stmts, line):
     return out
 
 
+def _peel_obj(n):
+    n = strip_all(n)
+    while n is not None and n.get("k") in ("CXXConstructExpr", "CXXFunctionalCastExpr") and len(n.get("c", [])) == 1:
+        n = strip_all(n["c"][0])
+    return n
+
+
 def _fix_indirect(root, functions):
     """a call through a parameter that was replaced by the address of a function is a direct call of that function"""
     for n in walk(root):
@@ -167,25 +174,43 @@ class Inliner:
                         break
         for key in list(self.functions):
             f = self.functions[key]
-            if f.get("body") is not None and str(f.get("file")).endswith(".cpp"):
+            if f.get("body") is not None and str(f.get("file")).endswith((".cpp", ".hpp")):
                 for _round in range(4):
                     before = self.count
                     self._helpers(f, only_fp=not f.get("externC"))
                     if self.count == before:
                         break
+                    # lambdas handed to the helper are now called at the place of the former parameter
+                    self._rewrite(f, self._lambda_vars(f))
         return self.count
 
     # -- file-local helpers of the C interface ---------------------------------------------------------
     def _local_helper(self, f, n):
         """callee of call node n if it is a helper defined in the same .cpp file as f (not extern "C", not a method)"""
-        if n.get("k") != "CallExpr" or not n.get("mg"):
+        if n.get("k") not in ("CallExpr", "CXXMemberCallExpr") or not n.get("mg"):
             return None
         g = self.functions.get(n["mg"])
-        if g is None or g is f or g.get("body") is None or g.get("externC") or g.get("method"):
+        if g is None or g is f or g.get("body") is None or g.get("externC"):
             return None
-        if g.get("file") != f.get("file") or not str(g.get("file")).endswith(".cpp"):
-            return None
-        if any(x.get("mg") == n["mg"] for x in walk(g["body"]) if x.get("k") == "CallExpr"):
+        if n.get("k") == "CXXMemberCallExpr":
+            # a member helper of the caller's own class, called on the implicit this, that takes a callable
+            from .facts import call_object
+            obj = strip_all(call_object(n))
+            m, fm = g.get("method") or {}, f.get("method") or {}
+            if obj is None or obj.get("k") != "CXXThisExpr" or m.get("virtual") or not m.get("clsT") or \
+                    m.get("clsT") != fm.get("clsT"):
+                return None
+            if not any("(lambda at" in str(p.get("t") or "") or "(*)" in str(p.get("t") or "") for p in g["params"]):
+                return None
+            stem = lambda x: str(x).rsplit(".", 1)[0]
+            if stem(g.get("file")) != stem(f.get("file")):
+                return None
+        else:
+            if g.get("method"):
+                return None
+            if g.get("file") != f.get("file") or not str(g.get("file")).endswith(".cpp"):
+                return None
+        if any(x.get("mg") == n["mg"] for x in walk(g["body"]) if x.get("k") in ("CallExpr", "CXXMemberCallExpr")):
             return None     # recursive
         return g
 
@@ -230,13 +255,13 @@ class Inliner:
         for n in walk(f["body"]):
             for c in kids(n):
                 par[id(c)] = n
-        for n in [x for x in walk(f["body"]) if x.get("k") == "CallExpr"]:
+        from .facts import call_args
+        for n in [x for x in walk(f["body"]) if x.get("k") in ("CallExpr", "CXXMemberCallExpr")]:
             g = self._local_helper(f, n)
             if g is None:
                 continue
-            params, args = g["params"], n["c"][1:]
-            args = [a for a in args]
-            if only_fp and not any("(*)" in str(p.get("t") or "") for p in params):
+            params, args = g["params"], list(call_args(n))
+            if only_fp and not any("(*)" in str(p.get("t") or "") or "(lambda at" in str(p.get("t") or "") for p in params):
                 continue
             if len(args) != len(params) or any(a.get("k") == "CXXDefaultArgExpr" for a in args):
                 continue
@@ -329,16 +354,25 @@ class Inliner:
         for n in walk(f["body"]):
             for c in kids(n):
                 par[id(c)] = n
+        def lam_of(n):
+            obj = _peel_obj(n["c"][1])
+            if obj is None:
+                return None
+            if obj.get("k") == "DeclRefExpr" and obj.get("rk") == "Var" and obj.get("id") in lams:
+                return lams[obj["id"]]
+            if obj.get("k") == "LambdaExpr":        # a lambda handed to an inlined helper and called there
+                return obj
+            return None
         calls = []
         for n in walk(f["body"]):
             if n.get("k") == "CXXOperatorCallExpr" and n.get("op") == "()" and len(n.get("c", [])) >= 2:
-                obj = strip_all(n["c"][1])
-                if obj is not None and obj.get("k") == "DeclRefExpr" and obj.get("rk") == "Var" and obj.get("id") in lams:
+                if lam_of(n) is not None:
                     calls.append(n)
         # innermost calls first (arguments may themselves contain calls of lambdas)
         for n in reversed(calls):
-            obj = strip_all(n["c"][1])
-            lam = lams[obj["id"]]
+            lam = lam_of(n)
+            if lam is None:
+                continue
             g = self.functions.get(n.get("mg")) or self.functions.get(lam.get("mg"))
             if g is None or g.get("body") is None or not (g.get("method") or {}).get("lambda"):
                 continue
